@@ -20,9 +20,9 @@ from common import BUILD, err_class, sx, parse_sx, time_limit
 warnings.filterwarnings("ignore")
 
 DT = torch.float64
-KINDS = ["regular", "nested", "lazy", "sub", "tensorclass", "memmap", "shared", "params"]
+KINDS = ["regular", "nested", "lazy", "sub", "tensorclass", "memmap", "shared", "params", "locked"]
 LAYOUTS = ["contiguous", "strided", "expanded", "offset", "zero_feat", "zero_batch", "mixed"]
-LOCKED_KINDS = ("memmap", "shared", "params")
+LOCKED_KINDS = ("memmap", "shared", "params", "locked")
 
 
 # ----------------------------------------------------------------------------------------------- values
@@ -228,6 +228,13 @@ class Container:
         elif kind == "shared":
             inner = build_plain(bs, layout if layout in ("contiguous", "zero_batch", "zero_feat") else "contiguous", self.cnt, rng, True, zf)
             self.td = inner.share_memory_()
+        elif kind == "locked":
+            # a locked tensordict whose memoised reads (@cache: _items_list, _values_list, keys ...) are warm
+            self.td = build_plain(bs, layout, self.cnt, rng, True, zf).lock_()
+            for args in ((True, True), (False, False), (True, False)):
+                self.td._items_list(*args)
+                self.td._values_list(*args)
+            list(self.td.keys(True, True))
         elif kind == "params":
             from tensordict import TensorDictParams
             inner = build_plain(bs, layout, self.cnt, rng, True, zf)
